@@ -1169,11 +1169,72 @@ def several_stores(ctx, rng):
                 shutil.rmtree(r, ignore_errors=True)
 
 
+def stale_views(ctx, rng):
+    """View objects the application obtained EARLIER (an Identity, a Key) and still holds after what they stood for was deleted and
+    other things were created: a lookup through such a view shows nothing or fails - it never shows (or signs with) the keys and
+    certificates of ANOTHER owner."""
+    for rep in range(ctx.n(4, 80)):
+        root = tempfile.mkdtemp(prefix='nvf-kc-')
+        try:
+            S = Store(root)
+            kc = S.kc
+            w = {'scripted': 'stale views'}
+            # --- an Identity view outlives its identity
+            for filler in range(rep % 3):
+                kc.touch_identity([C(b'filler'), C(b'%d' % filler)])
+            kc.touch_identity([C(b'old'), C(b'owner')])
+            view = kc[[C(b'old'), C(b'owner')]]
+            kc.del_identity([C(b'old'), C(b'owner')])
+            kc.touch_identity([C(b'new'), C(b'owner')])
+            new_keys = {tuple(bytes(c) for c in k) for k in kc[[C(b'new'), C(b'owner')]]}
+            ctx.event('stale-identity-view-probed')
+            ctx.case(('stale-view', 'identity', rep % 3), nontrivial=True)
+            try:
+                shown = {tuple(bytes(c) for c in k) for k in view}
+            except Exception:   # noqa
+                shown = set()
+            if shown & new_keys:
+                ctx.report('stale-view-shows-another-owner:identity', 'an Identity view kept from before its identity was deleted lists the keys of an identity created afterwards', w)
+            try:
+                sg = kc.get_signer({'identity': view})
+            except Exception:   # noqa
+                sg = None
+            if sg is not None:
+                r = rc.strict_data(bytes(make_data([C(b'signed')], MetaInfo(), b'x', sg)))
+                for k in kc[[C(b'new'), C(b'owner')]]:
+                    bits = bytes(kc[[C(b'new'), C(b'owner')]][k].key_bits)
+                    if verify_sig(bits, r['signed_portion'], r['sig_value']):
+                        ctx.report('stale-view-shows-another-owner:identity:signer', 'get_signer with an Identity view of a DELETED identity hands out a signer for the key of an identity created afterwards', w)
+            # --- a Key view outlives its key
+            idn = [C(b'keys'), C(b'owner')]
+            kc.touch_identity(idn)
+            k1 = kc.new_key(idn, key_type='ec')
+            kview = kc[idn][k1.name]
+            kc.del_key(k1.name)
+            k2 = kc.new_key(idn, key_type='ec')
+            new_certs = {tuple(bytes(c) for c in cn) for cn in kc[idn][k2.name]}
+            ctx.event('stale-key-view-probed')
+            try:
+                shown = {tuple(bytes(c) for c in cn) for cn in kview}
+            except Exception:   # noqa
+                shown = set()
+            if shown & new_certs:
+                ctx.report('stale-view-shows-another-owner:key', 'a Key view kept from before its key was deleted lists the certificates of a key created afterwards', w)
+            S.close()
+        except Exception as e:   # noqa
+            ctx.report(f'stale-view-check-raises:{type(e).__name__}@{raising_site(e)[0]}', f'{e!r}', None)
+        finally:
+            shutil.rmtree(root, ignore_errors=True)
+
+
 def run(ctx):
     ctx.rule = RULE
     rng = ctx.rng
     several_stores(ctx, rng)
     scripted_defaults(ctx, rng)
+    if ctx.shard == 0:
+        stale_views(ctx, rng)
+        ctx.need_event('stale-identity-view-probed')
     if ctx.shard == 0:
         bulk_scopes(ctx, rng)
     if ctx.shard == 0:
